@@ -1,4 +1,4 @@
-from .. import gate
+from .. import gate, world
 
 T = "Tinode.Props.C11."
 
@@ -11,17 +11,21 @@ PROP = dict(
                "session exactly as it was; authentication happens only on a successful unrestricted final answer, as that user and level; "
                "the version cannot change after the handshake and only supported versions are installed; the sender header is the "
                "server's. Tied to the code by a differential stream through the real Session.dispatch with a scripted authenticator "
-               "and the real token authenticator.",
+               "and the real token authenticator. A session which the server itself logs out (initTopicMe cannot read the account) is covered "
+               "by the world stream: from then on every request is refused with 401 (a note dropped, `as=` refused as from a non-root "
+               "session) and has no effect (theorems logout_on_unreadable_account, logged_out_refused, logged_out_cannot_act_for_others; "
+               "monitor on every generated history). Found and repaired this way: the logged-out session kept its level (fix: c1d0cf3).",
     level_note="{acc}'s account creation/update body, credential validators (the 'requires more validation' clause), token expiry and "
                "the {login scheme=reset} path are not modelled. Found and repaired: {acc} with an unknown temporary scheme crashed the "
                "server (fix: f6ef13f).",
     technique="Lean 4 proof (case analysis of the transcribed gate state machine) + differential correspondence through Session.dispatch + "
               "history monitor",
-    modules=["TinodeVerif.Props.C11"],
+    modules=["TinodeVerif.Props.C11", "TinodeVerif.Props.C11w"],
     theorems=[T + n for n in ["before_handshake", "before_login", "executed_as_logged_in", "only_root_on_behalf", "root_on_behalf",
                               "login_at_most_once", "failed_login_leaves_unauthenticated", "login_success_only", "login_success",
-                              "version_immutable", "handshake_version_supported", "sender_is_servers"]],
-    streams=[gate.gate_stream()],
+                              "version_immutable", "handshake_version_supported", "sender_is_servers",
+                              "logout_on_unreadable_account", "logged_out_refused", "logged_out_cannot_act_for_others"]],
+    streams=[gate.gate_stream(), world.world_stream("C11")],
     seeds=dict(quick=1, thorough=4),
     rule="random sequences of 4-20 messages on a fresh session (250 cases quick, 1500 thorough per seed): the ten client message kinds, "
          "14 version strings, 17 authenticator outcomes, token re-login, unknown schemes, on-behalf-of data with valid, invalid and "
